@@ -40,14 +40,14 @@ func ProductQ(centroids, subvectors, trigger int) *models.Quantizer {
 // FilterSchema: every inverted index type, both case modes, nested paths.
 func FilterSchema() models.IndexSchema {
 	return models.IndexSchema{
-		"s":       Str(false),
-		"sc":      Str(true),
-		"n":       Int(),
-		"f":       Float(),
-		"tags":    StrArr(false),
-		"tagsc":   StrArr(true),
-		"meta.n":  Int(),
-		"meta.s":  Str(false),
+		"s":         Str(false),
+		"sc":        Str(true),
+		"n":         Int(),
+		"f":         Float(),
+		"tags":      StrArr(false),
+		"tagsc":     StrArr(true),
+		"meta.n":    Int(),
+		"meta.s":    Str(false),
 		"meta.in.f": Float(),
 	}
 }
